@@ -306,9 +306,20 @@ def gen_module(rng, feats=frozenset(), size=8):
         return len(imports) + [g.name for g in order].index(name)
 
     L = ["(module $gen"]
-    for h in imports:
-        L.append('  (import "env" "%s" (func $%s (param i32 i32) (result i32)))' % (h, h))
-    L.append("  (memory 1)")
+    imp_lines = ['  (import "env" "%s" (func $%s (param i32 i32) (result i32)))' % (h, h) for h in imports]
+    # imports of the other kinds, anywhere among the function imports; an unnamed function import goes
+    # last (it takes a function index but no name can reach it)
+    mem_imported = rng.random() < 0.3
+    glob_imported = rng.random() < 0.3
+    if mem_imported:
+        imp_lines.insert(rng.randrange(len(imp_lines) + 1), '  (import "res" "mem" (memory 1))')
+    if glob_imported:
+        imp_lines.insert(rng.randrange(len(imp_lines) + 1), '  (import "res" "k" (global $k.imp i32))')
+    if not numeric and rng.random() < 0.25:
+        imp_lines.append('  (import "env" "anonlog" (func (param i32)))')
+    L += imp_lines
+    if not mem_imported:
+        L.append("  (memory 1)")
     L.append("  (table %s%d funcref)" % (("$%s " % tabname) if tabname else "", tsize))
     L.append("  (type $T (func (param i32 i32) (result i32)))")
     L.append("  (global $acc (mut i32) (i32.const %d))" % rng.randint(0, 1000))
@@ -336,6 +347,8 @@ def gen_module(rng, feats=frozenset(), size=8):
             sig = "(param $a i32) (result i32)"
             f.body = ["local.get $a", "i32.const 1020", "i32.and", "i32.load"]
         L.append("  (func %s%s%s%s" % (nm, stt, ex, sig))
+        if glob_imported and f.kind == "T" and f.body and f.body[-1] == "local.get $r":
+            f.body = f.body + ["global.get $k.imp", "i32.add"]
         for ln in f.body:
             L.append("    " + ln)
         L.append("  )")
@@ -374,3 +387,73 @@ def gen_module(rng, feats=frozenset(), size=8):
         "dead": len([f for f in order if f.name not in seen]),
     }
     return "\n".join(L) + "\n", meta
+
+
+# ---------------------------------------------------------------------------------------------
+# deterministic matrix: imports of every kind, named and unnamed, live and dead, in all orders,
+# together with unnamed defined functions
+
+IMPORT_ITEMS = {
+    "Fl": '(import "env" "live" (func $h.live (param i32) (result i32)))',      # named function import, called by live code
+    "Fd": '(import "env" "deadonly" (func $h.dead (param i32) (result i32)))',  # named function import, called by dead code only
+    "Fu": '(import "env" "log" (func (param i32)))',                            # unnamed function import (nothing can name it)
+    "M": '(import "res" "mem" (memory 1))',
+    "G": '(import "res" "g" (global $g.imp i32))',
+    "T": '(import "res" "tab" (table $t.imp 2))',
+}
+
+
+def _perms(items):
+    """all orders for up to 3 items, 6 fixed orders beyond (identity, reverse, rotations, a swap)"""
+    import itertools
+    items = list(items)
+    if len(items) <= 3:
+        return [list(p) for p in itertools.permutations(items)]
+    n = len(items)
+    out = [items, items[::-1], items[1:] + items[:1], items[2:] + items[:2], items[-1:] + items[:-1],
+           [items[1], items[0]] + items[2:]]
+    uniq = []
+    for o in out:
+        if o not in uniq:
+            uniq.append(o)
+    return uniq
+
+
+def import_matrix(with_table=False):
+    """-> [(label, wat)]; `with_table` adds the table import (the printer has no case for it)"""
+    import itertools
+    pool = ["Fl", "Fd", "Fu", "M", "G"] + (["T"] if with_table else [])
+    res = []
+    for r in range(1, len(pool) + 1):
+        for sub in itertools.combinations(pool, r):
+            if with_table and "T" not in sub:
+                continue
+            for order in _perms(sub):
+                for anon in ("none", "dead", "exported", "both"):
+                    L = ["(module $imports"]
+                    L += ["  " + IMPORT_ITEMS[k] for k in order]
+                    if "M" not in sub:
+                        L.append("  (memory 1)")
+                    L.append("  (global $acc (mut i32) (i32.const 3))")
+                    if anon in ("dead", "both"):
+                        L += ["  (func (param i32) (result i32)", "    local.get 0", "    i32.const 1", "    i32.sub", "  )"]
+                    body = ["i32.const 8", "local.get $x", "i32.store", "i32.const 8", "i32.load", "global.get $acc", "i32.add"]
+                    if "G" in sub:
+                        body += ["global.get $g.imp", "i32.mul"]
+                    if "Fl" in sub:
+                        body += ["call $h.live"]
+                    body += ["call $helper"]
+                    L.append('  (func $f (export "f") (param $x i32) (result i32)')
+                    L += ["    " + b for b in body]
+                    L.append("  )")
+                    L += ["  (func $helper (param $x i32) (result i32)", "    local.get $x", "    global.get $acc", "    i32.xor", "    global.set $acc", "    global.get $acc", "  )"]
+                    dead = ["local.get $x"] + (["call $h.dead"] if "Fd" in sub else []) + ["call $helper"]
+                    L.append("  (func $dead (param $x i32) (result i32)")
+                    L += ["    " + b for b in dead]
+                    L.append("  )")
+                    if anon in ("exported", "both"):
+                        L += ['  (func (export "anon") (param i32) (result i32)', "    local.get 0", "    i32.const 3", "    i32.add",
+                              "    call $helper", "  )"]
+                    L.append(")")
+                    res.append(("%s/anon-%s" % ("-".join(order), anon), "\n".join(L) + "\n"))
+    return res
